@@ -1,0 +1,298 @@
+//! Verification hooks (cargo feature `verif`, off by default).
+//!
+//! Thin `pub` wrappers around crate-private items so that an external harness can run the real
+//! code function by function, plus the registration points for the evaluator / deadline taps.
+//! Nothing in here is compiled unless the feature is enabled and nothing changes behaviour
+//! unless a tap is explicitly armed.
+
+use std::sync::{
+    atomic::{AtomicI64, AtomicU64, Ordering::SeqCst},
+    Arc, Mutex, OnceLock,
+};
+
+pub use crate::{
+    apng::Frame,
+    atomicmin::AtomicMin,
+    headers::{
+        extract_icc, file_header_is_valid, make_iccp, parse_ihdr_chunk, parse_next_chunk,
+        postprocess_chunks, preprocess_chunks, srgb_rendering_intent, Chunk, IhdrData, RawChunk,
+    },
+    png::{PngData, PngImage},
+    Deadline,
+};
+use crate::{filters::RowFilter, Options, PngError};
+
+pub fn paeth_predictor(a: u8, b: u8, c: u8) -> u8 {
+    crate::filters::verif_paeth_predictor(a, b, c)
+}
+
+/// `RowFilter::filter_line` (mutates `data` when `alpha_bytes != 0`); returns the filtered line
+pub fn filter_line(
+    filter: RowFilter,
+    bpp: usize,
+    data: &mut [u8],
+    prev_line: &[u8],
+    alpha_bytes: usize,
+) -> Vec<u8> {
+    let mut buf = Vec::new();
+    filter.filter_line(bpp, data, prev_line, &mut buf, alpha_bytes);
+    buf
+}
+
+pub fn unfilter_line(
+    filter: RowFilter,
+    bpp: usize,
+    data: &[u8],
+    prev_line: &[u8],
+) -> Result<Vec<u8>, PngError> {
+    let mut buf = Vec::new();
+    filter.unfilter_line(bpp, data, prev_line, &mut buf)?;
+    Ok(buf)
+}
+
+pub fn is_c2pa(name: [u8; 4], data: &[u8]) -> bool {
+    RawChunk { name, data }.is_c2pa()
+}
+
+pub fn strip_keep(strip: &crate::StripChunks, name: &[u8; 4]) -> bool {
+    strip.keep(name)
+}
+
+pub fn is_fully_optimized(original_size: usize, optimized_size: usize, opts: &Options) -> bool {
+    crate::is_fully_optimized(original_size, optimized_size, opts)
+}
+
+/// Result of `optimize_raw`: (image, data, key, data_is_compressed)
+pub type RawResult = (Arc<PngImage>, Vec<u8>, Key, bool);
+
+pub fn optimize_raw(
+    image: Arc<PngImage>,
+    opts: &Options,
+    max_size: Option<usize>,
+) -> Option<RawResult> {
+    let deadline = Arc::new(Deadline::new(opts.timeout));
+    crate::optimize_raw(image, opts, deadline, max_size).map(|c| {
+        let key = c.verif_key();
+        (c.image, c.data, key, c.data_is_compressed)
+    })
+}
+
+/// Images handed to an evaluator by `perform_reductions`, and the returned baseline
+pub fn perform_reductions(image: Arc<PngImage>, opts: &Options) -> Arc<PngImage> {
+    use crate::evaluate::Evaluator;
+    let deadline = Arc::new(Deadline::new(opts.timeout));
+    let eval = Evaluator::new(
+        deadline.clone(),
+        indexmap::indexset! {RowFilter::None},
+        crate::Deflaters::Libdeflater { compression: 1 },
+        false,
+        false,
+    );
+    let baseline = crate::reduction::perform_reductions(image, opts, &deadline, &eval);
+    let _ = eval.get_best_candidate();
+    baseline
+}
+
+// ---------------------------------------------------------------------------------------------
+// Taps. All are no-ops unless armed by the harness.
+
+/// (nth, filter, estimated output size, raw data length): the fields `Candidate::cmp_key` orders by
+pub type Key = (usize, RowFilter, usize, usize);
+
+/// One event reported by the taps
+#[derive(Debug, Clone)]
+pub enum Event {
+    /// `try_image` called
+    Submit {
+        eval: u64,
+        nth: usize,
+        image: Arc<PngImage>,
+        final_round: bool,
+        optimize_alpha: bool,
+    },
+    /// the spawned job started running
+    JobStart { eval: u64, nth: usize },
+    /// a trial is about to consult the deadline (schedule point: the callback may sleep here)
+    TrialStart {
+        eval: u64,
+        nth: usize,
+        filter: RowFilter,
+    },
+    /// a trial was skipped because the deadline had passed
+    Skipped {
+        eval: u64,
+        nth: usize,
+        filter: RowFilter,
+    },
+    /// the shared bound was read (atomically with this event); `nth == usize::MAX`: not in a trial
+    ReadBound {
+        eval: u64,
+        nth: usize,
+        filter: RowFilter,
+        bound: Option<usize>,
+    },
+    /// `set_min` is being applied to the shared bound (atomically with this event)
+    SetMin {
+        eval: u64,
+        nth: usize,
+        filter: RowFilter,
+        value: usize,
+    },
+    /// compression returned: `idat_len == None` means it did not fit the bound that was read
+    Finish {
+        eval: u64,
+        nth: usize,
+        filter: RowFilter,
+        idat_len: Option<usize>,
+        key_size: usize,
+        raw_len: usize,
+        filtered: Vec<u8>,
+    },
+    /// `get_best_candidate` entered
+    CollectStart { eval: u64, submitted: usize },
+    /// the collector is about to call `yield_local`
+    Yield { eval: u64 },
+    /// the collector took this candidate from the channel
+    Received { eval: u64, key: Key },
+    /// the channel is drained
+    CollectEnd { eval: u64 },
+    /// winner of the reduction evaluator in `optimize_raw`
+    Collected { winner: Option<Key> },
+    /// `eval_result` after the fast-mode filter evaluator in `perform_trials`
+    CollectedFast { winner: Option<Key> },
+    /// candidate chosen by `optimize_raw` before the acceptance test
+    Final {
+        key: Key,
+        data_is_compressed: bool,
+        data_len: usize,
+    },
+}
+
+type Tap = Arc<dyn Fn(&Event) + Send + Sync>;
+
+fn tap_slot() -> &'static Mutex<Option<Tap>> {
+    static SLOT: OnceLock<Mutex<Option<Tap>>> = OnceLock::new();
+    SLOT.get_or_init(|| Mutex::new(None))
+}
+
+/// Install (or remove) the tap. The callback runs on the thread that raised the event. It may
+/// sleep in `TrialStart` / `JobStart` / `Yield` to perturb the schedule; `ReadBound` and `SetMin`
+/// are raised while a global lock is held so that their order in a log is the order of the
+/// atomic operations.
+pub fn set_tap(tap: Option<Tap>) {
+    *tap_slot().lock().unwrap() = tap;
+}
+
+fn current_tap() -> Option<Tap> {
+    tap_slot().lock().unwrap().clone()
+}
+
+pub(crate) fn emit(make: impl FnOnce() -> Event) {
+    if let Some(tap) = current_tap() {
+        tap(&make());
+    }
+}
+
+thread_local! {
+    static CTX: std::cell::Cell<(u64, usize, RowFilter)> =
+        const { std::cell::Cell::new((u64::MAX, usize::MAX, RowFilter::None)) };
+}
+
+pub(crate) fn set_ctx(eval: u64, nth: usize, filter: RowFilter) {
+    CTX.with(|c| c.set((eval, nth, filter)));
+}
+
+fn op_lock() -> &'static Mutex<()> {
+    static LOCK: OnceLock<Mutex<()>> = OnceLock::new();
+    LOCK.get_or_init(|| Mutex::new(()))
+}
+
+/// Held around an atomic operation on the shared bound and its event (only while a tap is set)
+pub(crate) fn op_guard() -> Option<std::sync::MutexGuard<'static, ()>> {
+    current_tap().map(|_| op_lock().lock().unwrap_or_else(|e| e.into_inner()))
+}
+
+pub(crate) fn on_bound_read(val: usize) {
+    let (eval, nth, filter) = CTX.with(|c| c.get());
+    emit(|| Event::ReadBound {
+        eval,
+        nth,
+        filter,
+        bound: if val == usize::MAX { None } else { Some(val) },
+    });
+}
+
+pub(crate) fn on_set_min(value: usize) {
+    let (eval, nth, filter) = CTX.with(|c| c.get());
+    emit(|| Event::SetMin {
+        eval,
+        nth,
+        filter,
+        value,
+    });
+}
+
+/// Iterator adaptor reporting every candidate the collector receives
+#[allow(dead_code)]
+pub(crate) struct TapIter<I> {
+    inner: I,
+    eval: u64,
+}
+
+#[allow(dead_code)]
+impl<I> TapIter<I> {
+    pub(crate) fn new(inner: I, eval: u64) -> Self {
+        Self { inner, eval }
+    }
+}
+
+impl<I: Iterator<Item = crate::evaluate::Candidate>> Iterator for TapIter<I> {
+    type Item = crate::evaluate::Candidate;
+    fn next(&mut self) -> Option<Self::Item> {
+        let item = self.inner.next();
+        let eval = self.eval;
+        match &item {
+            Some(c) => emit(|| Event::Received {
+                eval,
+                key: c.verif_key(),
+            }),
+            None => emit(|| Event::CollectEnd { eval }),
+        }
+        item
+    }
+}
+
+static NEXT_EVAL: AtomicU64 = AtomicU64::new(0);
+
+pub(crate) fn next_eval_id() -> u64 {
+    NEXT_EVAL.fetch_add(1, SeqCst)
+}
+
+/// Deadline override: when armed with `k >= 0`, the k-th (0-based) and all later consultations of
+/// `Deadline::passed` report "expired"; consultations are counted either way.
+static DEADLINE_EXPIRE_AT: AtomicI64 = AtomicI64::new(-1);
+static DEADLINE_COUNT: AtomicU64 = AtomicU64::new(0);
+static DEADLINE_ARMED: std::sync::atomic::AtomicBool = std::sync::atomic::AtomicBool::new(false);
+
+/// Arm the deadline override (`expire_at = None`: only count)
+pub fn arm_deadline(expire_at: Option<u64>) {
+    DEADLINE_COUNT.store(0, SeqCst);
+    DEADLINE_EXPIRE_AT.store(expire_at.map_or(-1, |k| k as i64), SeqCst);
+    DEADLINE_ARMED.store(true, SeqCst);
+}
+
+/// Disarm the override and return the number of consultations seen while armed
+pub fn disarm_deadline() -> u64 {
+    DEADLINE_ARMED.store(false, SeqCst);
+    DEADLINE_COUNT.load(SeqCst)
+}
+
+/// `Some(answer)` when the override is armed
+pub(crate) fn deadline_override() -> Option<bool> {
+    if !DEADLINE_ARMED.load(SeqCst) {
+        return None;
+    }
+    let n = DEADLINE_COUNT.fetch_add(1, SeqCst);
+    let k = DEADLINE_EXPIRE_AT.load(SeqCst);
+    Some(k >= 0 && n >= k as u64)
+}
